@@ -578,6 +578,9 @@ func c18Cases(tier string) []httpCase {
 		{{Status: 500}, {Status: 502}, {Status: 504, Body: "last"}},
 		// error responses with bodies of several KiB, the last of which is what the caller finally gets
 		{{Status: 503, Body: bigBody[:5000]}, {Status: 500, Body: bigBody[:9000]}, {Status: 429, Body: bigBody[:6000]}},
+		// 5xx statuses without a name in net/http are 5xx statuses
+		{{Status: 509, Body: "bw"}, {Status: 599, Body: "x"}, ok},
+		{{Status: 520}, {Status: 529, Body: "overloaded"}, {Status: 598, Body: "last"}},
 		// a transport-level timeout (net/http's own: it matches context.DeadlineExceeded) is an error like any other: retried
 		{{Err: netTimeoutError{}}, ok},
 		{{Err: errors.New("connection reset")}, ok},
